@@ -27,6 +27,13 @@ Theorem C13_area_is_mass_matrix_area : forall v i j k,
 Proof. exact cross_area_is_tri_area. Qed.
 Print Assumptions C13_area_is_mass_matrix_area.
 
+(* vertex normals (any length unit): every returned vector is unit, or is a raw sum of cross products whose length is at rounding
+   level (machine epsilon) relative to the longest sum of the mesh -- e.g. at an unused vertex or where the incident faces cancel *)
+Theorem C13_vertex_normals_unit_or_negligible : forall n v ts l, vertex_normals Rops n v ts = Ok l ->
+  Forall (fun w => dot Rops w w = 1 \/ norm Rops w <= eps52 Rops * vn_max n v ts) l.
+Proof. exact vertex_normals_unit_or_negligible. Qed.
+Print Assumptions C13_vertex_normals_unit_or_negligible.
+
 (* triangle normals: unit, orthogonal to the triangle, following the winding, for every triangle of non-zero area (any length unit) *)
 Theorem C13_tria_normals_unit_orthogonal_winding : forall v i j k,
   let '(p0, p1, p2) := tri_pts Rops v (i, j, k) in
